@@ -70,13 +70,14 @@ theorem walk_seg (net : Net) : ∀ (hops : List Conn) (g : Nat) (came c : Bool) 
 
 /-- message forwarding follows a segment: with every owner on the way active the message is handed
     to the owner of the last gate, after the sum of the channel delays -/
-theorem forward_seg (net : Net) (owner : Nat → Nat) (active : Nat → Bool) :
+theorem forward_seg (net : Net) (owner : Nat → Nat) (active : Nat → Nat → Bool) (sender : Nat) :
     ∀ (hops : List Conn) (g : Nat) (came c : Bool) (fuel t : Nat) (last : Option Nat),
     Seg net g came hops c → (net (lastGate g hops)).get (!c) = none → hops.length < fuel →
-    (∀ x ∈ (gatesOf g hops).dropLast, active (owner x) = true) →
-    forward net owner active fuel g came t last =
+    (∀ x ∈ (gatesOf g hops).dropLast, ∀ t', active (owner x) t' = true) →
+    forward net owner active sender fuel g came t last =
       .handled (owner (lastGate g hops)) (t + delaySum hops)
-        (if hops = [] then last else some (lastGate g hops)) (active (owner (lastGate g hops))) := by
+        (if hops = [] then last else some (lastGate g hops))
+        (active (owner (lastGate g hops)) (t + delaySum hops)) sender := by
   intro hops
   induction hops with
   | nil =>
@@ -94,10 +95,10 @@ theorem forward_seg (net : Net) (owner : Nat → Nat) (active : Nat → Bool) :
     | zero => simp at hf
     | succ fuel =>
       obtain ⟨h1, _, h3⟩ := hs
-      have hg : active (owner g) = true := by
+      have hg : active (owner g) t = true := by
         apply hact
         simp [gatesOf]
-      have hact' : ∀ x ∈ (gatesOf k.peer rest).dropLast, active (owner x) = true := by
+      have hact' : ∀ x ∈ (gatesOf k.peer rest).dropLast, ∀ t', active (owner x) t' = true := by
         intro x hx
         apply hact
         simp only [gatesOf, List.map_cons] at hx ⊢
@@ -114,11 +115,11 @@ theorem forward_seg (net : Net) (owner : Nat → Nat) (active : Nat → Bool) :
       | cons k2 r2 => simp [Nat.add_assoc]
 
 /-- a gate with an inactive owner on the way (not the last gate) swallows the message -/
-theorem forward_seg_dropped (net : Net) (owner : Nat → Nat) (active : Nat → Bool) :
+theorem forward_seg_dropped (net : Net) (owner : Nat → Nat) (active : Nat → Nat → Bool) (sender : Nat) :
     ∀ (hops : List Conn) (g : Nat) (came c : Bool) (fuel t : Nat) (last : Option Nat),
     Seg net g came hops c → hops.length < fuel →
-    (∃ x ∈ (gatesOf g hops).dropLast, active (owner x) = false) →
-    ∃ x t', forward net owner active fuel g came t last = .dropped x t' := by
+    (∃ x ∈ (gatesOf g hops).dropLast, ∀ t', active (owner x) t' = false) →
+    ∃ x t', forward net owner active sender fuel g came t last = .dropped x t' := by
   intro hops
   induction hops with
   | nil =>
@@ -131,14 +132,14 @@ theorem forward_seg_dropped (net : Net) (owner : Nat → Nat) (active : Nat → 
     | zero => simp at hf
     | succ fuel =>
       obtain ⟨h1, _, h3⟩ := hs
-      cases hg : active (owner g) with
+      cases hg : active (owner g) t with
       | false => exact ⟨g, t, by simp [forward, nextHop, h1, hg]⟩
       | true =>
         obtain ⟨x, hx, hxa⟩ := hex
         simp only [gatesOf, List.map_cons] at hx
         rw [List.dropLast_cons_cons, List.mem_cons] at hx
         rcases hx with rfl | hx
-        · rw [hg] at hxa; cases hxa
+        · rw [hxa t] at hg; cases hg
         · obtain ⟨y, t', hy⟩ := ih k.peer k.peerSlot c fuel (t + k.chan.getD 0) (some k.peer) h3
             (by simp at hf; omega) ⟨x, hx, hxa⟩
           exact ⟨y, t', by simp [forward, nextHop, h1, hg, hy]⟩
